@@ -146,6 +146,22 @@ func randScene(r *rand.Rand, i, maxv, maxj, maxf int) XDesc {
 		}
 		xm.Anims = append(xm.Anims, q)
 	}
+	if r.Intn(20) == 0 {
+		// a skeleton meets a mesh that is not rigged for it: no Joint / Weight at all, or joints it does not have
+		d.Tag = "seeded-unrigged"
+		k := r.Intn(len(d.XM))
+		mi := d.Models[k].Mesh - 1
+		if r.Intn(2) == 0 {
+			d.JW[mi] = 0
+		} else {
+			d.JW[mi] = 3
+			d.Skels = append(d.Skels, DSkel{Par: []int{0, 1}, Pos: [][]int{{0, 8, 0}, {8, 8, 0}}, Ori: []int{0, 0}})
+		}
+		if d.XM[k].Skel == 0 || d.JW[mi] == 3 {
+			d.XM[k].Skel = len(d.Skels)
+			d.XM[k].Anims = []DSeq{}
+		}
+	}
 	if r.Intn(3) == 0 {
 		d.Lights = append(d.Lights, gltffam.DLight{Type: 2, Col: 1, Inten: -1, Range: -1, Pos: []int{8, 0, -8}})
 	}
